@@ -60,6 +60,16 @@ def theorem(o):
             proof = "exact %s_s_const x _ %s %s" % (base, D, D)
         else:
             proof = "exact %s_u_const x _ %s" % (base, D)
+    elif cls in ("quox", "remx"):
+        c = o["c"]
+        base = "quo" if cls == "quox" else "rem"
+        head = "(y : BitVec %d) : %s y = specM (GoArith.%s %s (BitVec.ofInt %d (%d)) y)" % (w, n, base, b(s), w, c)
+        if not s:
+            proof = "exact %s_u _ y _ _ %s %s" % (base, D, D)
+        elif c == -(1 << (w - 1)):
+            proof = "exact %s_s_xmin y _ _ _ _ _ _ %s" % (base, " ".join([D] * 7))
+        else:
+            proof = "exact %s_s_xconst _ y _ _ %s %s %s" % (base, D, D, D)
     elif cls in ("shl", "shr"):
         w2, s2 = o["w2"], o["s2"]
         head = "(x : BitVec %d) (y : BitVec %d) : %s x y = specM (GoArith.%s %s %s x y)" % (w, w2, n, cls, b(s), b(s2))
